@@ -6,7 +6,7 @@ use crate::refchess::*;
 use crate::report::*;
 use crate::rng::Rng;
 use crate::walk::*;
-use chess::{BitBoard, MoveGen, EMPTY};
+use chess::{BitBoard, Board, ChessMove, MoveGen, EMPTY};
 
 struct Automaton<'a> {
     fen: String,
@@ -311,6 +311,66 @@ impl C14 {
     }
 }
 
+/// The generator is a standard `Iterator`: whatever way a caller consumes it (nth, skip, step_by, count,
+/// last, take + rest, size_hint - any of which an implementation may override for speed) must agree with
+/// plain `next()` calls, also past the end and with a mask set.
+fn adaptor_equivalences(b: &Board, rep: &mut Report, rng: &mut Rng) {
+    let base: Vec<ChessMove> = MoveGen::new_legal(b).collect();
+    let len = base.len();
+    rep.count("ev_adaptor_rounds");
+    let fen = || format!("{}", b);
+    for k in [0usize, 1, len.saturating_sub(1), len, len + 1, len + 7, rng.below(len + 2), 1 << 20, (1usize << 32) + 1, usize::MAX].iter() {
+        let mut it = MoveGen::new_legal(b);
+        let got = it.nth(*k);
+        let want = base.get(*k).cloned();
+        let rest: Vec<ChessMove> = it.collect();
+        let want_rest: Vec<ChessMove> = if *k < len { base[*k + 1..].to_vec() } else { vec![] };
+        rep.evaluations += 1;
+        if got != want || rest != want_rest {
+            rep.violation("C14/adaptor/nth", format!("nth({}) = {:?} then {} more; next()-iteration gives {:?} then {} more ; fen={}", k, got, rest.len(), want, want_rest.len(), fen()));
+        }
+        let sk: Vec<ChessMove> = MoveGen::new_legal(b).skip(*k).collect();
+        let want_sk: Vec<ChessMove> = if *k < len { base[*k..].to_vec() } else { vec![] };
+        if sk != want_sk {
+            rep.violation("C14/adaptor/skip", format!("skip({}) yields {} moves, want {} ; fen={}", k, sk.len(), want_sk.len(), fen()));
+        }
+    }
+    rep.evaluations += 4;
+    if MoveGen::new_legal(b).count() != len {
+        rep.violation("C14/adaptor/count", format!("count() != {} ; fen={}", len, fen()));
+    }
+    if MoveGen::new_legal(b).last() != base.last().cloned() {
+        rep.violation("C14/adaptor/last", format!("fen={}", fen()));
+    }
+    let st: Vec<ChessMove> = MoveGen::new_legal(b).step_by(3).collect();
+    if st != base.iter().cloned().step_by(3).collect::<Vec<_>>() {
+        rep.violation("C14/adaptor/step_by", format!("fen={}", fen()));
+    }
+    let mut it = MoveGen::new_legal(b);
+    let head: Vec<ChessMove> = it.by_ref().take(2).collect();
+    let hint = it.size_hint();
+    let tail: Vec<ChessMove> = it.collect();
+    if head.iter().chain(tail.iter()).cloned().collect::<Vec<_>>() != base || hint != (tail.len(), Some(tail.len())) {
+        rep.violation("C14/adaptor/take-then-rest", format!("size_hint {:?}, {} + {} moves, want {} ; fen={}", hint, head.len(), tail.len(), len, fen()));
+    }
+    // the same under a mask
+    if len > 0 {
+        let mask = BitBoard(1u64 << base[rng.below(len)].get_dest().to_index()) | BitBoard(rng.next() & rng.next());
+        let mut it = MoveGen::new_legal(b);
+        it.set_iterator_mask(mask);
+        let masked: Vec<ChessMove> = it.collect();
+        for k in [0usize, masked.len().saturating_sub(1), masked.len(), masked.len() + 3].iter() {
+            let mut it = MoveGen::new_legal(b);
+            it.set_iterator_mask(mask);
+            let got = it.nth(*k);
+            rep.evaluations += 1;
+            if got != masked.get(*k).cloned() {
+                rep.violation("C14/adaptor/nth-under-mask", format!("nth({}) = {:?} want {:?} ; mask {:x} fen={}", k, got, masked.get(*k), mask.0, fen()));
+            }
+        }
+    }
+}
+
 impl NodeMon for C14 {
     fn through_rights_divergence(&self) -> bool {
         true
@@ -318,6 +378,9 @@ impl NodeMon for C14 {
     fn node(&mut self, n: &Node, rep: &mut Report, rng: &mut Rng) {
         if !same_core(&read_board(n.b), n.p) {
             return;
+        }
+        if self.variant == Variant::Miri || rng.chance(1, 4) {
+            adaptor_equivalences(n.b, rep, rng);
         }
         let k = if self.variant == Variant::Miri { 1 } else { 3 };
         for i in 0..k {
